@@ -2,6 +2,7 @@ package rules
 
 import (
 	"go/token"
+	"go/types"
 	"strings"
 
 	"gunyucheck/core"
@@ -390,4 +391,111 @@ func startPointHandedOver(p *core.Path, recv ssa.Value, at ssa.Instruction, vars
 		}
 	}
 	return nil, nil
+}
+
+// ---------------------------------------------------------------- the sender's request built in a variable
+
+// flushArgsOnPath is flushArgsAt for a call that hands over a request struct
+// which is not one plain literal: a private struct variable (its address goes
+// nowhere) that was filled by a literal and then adjusted field by field
+// (`req := R{…, offset: prev}; if commit { req.offset = last }; send(req)`).
+// Each role is the value its field holds on this path when the variable is read
+// for the call (core.Path.RecordField).
+func (c *senderCtx) flushArgsOnPath(p *core.Path, s core.Site) (args [3]ssa.Value, ok bool) {
+	if a, isPlain := c.flushArgsAt(s); isPlain {
+		return a, true
+	}
+	idx, _, isStruct := c.reqFields()
+	a := s.Common().Args
+	if !isStruct || len(a) != 1 {
+		return args, false
+	}
+	for k := 0; k < 3; k++ {
+		v := p.RecordField(core.Unwrap(a[0]), idx[k])
+		if v == nil {
+			return args, false
+		}
+		args[k] = v
+	}
+	return args, true
+}
+
+// flushOffsetSources: for the same kind of call, flow-insensitively, every
+// value the offset field of the request may hold (core.RecordFieldSources: the
+// stores into the field and into the records it is copied from).
+func (c *senderCtx) flushOffsetSources(s core.Site) ([]ssa.Value, bool) {
+	idx, _, isStruct := c.reqFields()
+	a := s.Common().Args
+	if !isStruct || len(a) != 1 {
+		return nil, false
+	}
+	ld, ok := core.Unwrap(a[0]).(*ssa.UnOp)
+	if !ok || ld.Op != token.MUL {
+		return nil, false
+	}
+	al, ok := ld.X.(*ssa.Alloc)
+	if !ok {
+		return nil, false
+	}
+	vals, known := core.RecordFieldSources(al, idx[2])
+	if !known || len(vals) == 0 {
+		return nil, false
+	}
+	return vals, true
+}
+
+// fieldTestedFalseBefore: g takes a record (its last parameter, by value); the
+// result is the index of the boolean field that g has tested to be false
+// wherever it calls the method named callee (`if !rec.flag && … { callee() }`).
+// Found only when exactly one field qualifies at every such call.
+func fieldTestedFalseBefore(g *ssa.Function, callee string) (int, bool) {
+	if g == nil || len(g.Params) == 0 {
+		return 0, false
+	}
+	par := g.Params[len(g.Params)-1]
+	if _, isStruct := par.Type().Underlying().(*types.Struct); !isStruct {
+		return 0, false
+	}
+	fieldOfPar := func(v ssa.Value) (int, bool) {
+		switch x := core.Unwrap(v).(type) {
+		case *ssa.Field:
+			if x.X == ssa.Value(par) {
+				return x.Field, true
+			}
+		case *ssa.UnOp:
+			if fa, isFa := x.X.(*ssa.FieldAddr); isFa && x.Op == token.MUL && spillOf(fa.X) == ssa.Value(par) {
+				return fa.Field, true
+			}
+		}
+		return 0, false
+	}
+	idx, have, calls := 0, false, 0
+	for _, s := range core.Sites(g, false) {
+		if s.Method != callee || s.Instr.Parent() != g {
+			continue
+		}
+		calls++
+		var here []int
+		for _, fct := range core.FactsAt(s.Instr.Block()) {
+			v, val := fct.Cond, fct.Val
+			if fct.Res != nil {
+				v = fct.Res
+			}
+			for {
+				u, isNot := core.Unwrap(v).(*ssa.UnOp)
+				if !isNot || u.Op != token.NOT {
+					break
+				}
+				v, val = u.X, !val
+			}
+			if k, isField := fieldOfPar(v); isField && !val {
+				here = append(here, k)
+			}
+		}
+		if len(here) != 1 || (have && here[0] != idx) {
+			return 0, false
+		}
+		idx, have = here[0], true
+	}
+	return idx, have && calls > 0
 }
